@@ -74,6 +74,22 @@ CLAIMS = {
         "target) are listed in known_findings.json. Bounded depth; fault menu as listed in mc/props/c09.py.",
         "DESIGN.md §3 C09",
     ),
+    "C13": (
+        "model_checking",
+        "explicit-state BFS of a finite abstract typestate model to a fixpoint with every abstract transition replayed on the "
+        "real Sequence through a witness history, plus concrete BFS with the model folded over each history and a mode-only "
+        "consistency check",
+        "A plain-Python typestate model (declared channels with id / EOM / target flags, XY-Ising-undecided, SLM reservation, "
+        "measured, parametrized, empty) is explored breadth-first over a 35-op alphabet covering the whole building API on a "
+        "reusable and a non-reusable device; for every abstract state and op the witness history + op is executed on the real "
+        "Sequence and accept/refuse plus the observers (declared/available channels, is_parametrized, is_measured, "
+        "is_in_eom_mode) must agree (quick: fixpoint on the non-reusable device = 1376 states / 48k transitions, 4000-state cap on "
+        "the reusable one; thorough: both to fixpoint). Concrete BFS to depth 3-4 on three worlds groups histories by model "
+        "mode and requires identical accept vectors inside a group.",
+        "Arguments are value-valid so only the mode can cause refusals; data-dependent cases are left undecided by the model "
+        "(listed in mc/typestate.py); <= 2 DMM channels per state.",
+        "DESIGN.md §3 C13",
+    ),
 }
 
 PENDING_REASON = "check not built yet in this round (design in DESIGN.md §3); nothing is claimed for it"
